@@ -75,6 +75,8 @@ class OneStepLoop:
         except _Continue:
             how = "continue"
         except _Break:
-            how = "break"
+            # the body left the loop: execution continues behind it
+            I.ctx.ghost["step"] = {"how": "break", "locals": dict(frame.locals)}
+            return
         I.ctx.ghost["step"] = {"how": how, "locals": dict(frame.locals)}
         raise PathEnd("step")
